@@ -49,8 +49,29 @@ pub fn draw_input(r: &mut SplitMix64) -> InputKind {
     }
 }
 
+/// Every regular input family at 700 kB and every count document (one kind of thing counted to
+/// 66 000), through plain iteration and through one loader: spread one per chunk.
+pub fn mega_count() -> u64 {
+    ((crate::scale::FAMILIES.len() + gen::COUNT_KINDS.len()) * 2) as u64
+}
+fn mega_case(k: u64) -> Case {
+    let f = (k / 2) as usize;
+    let text = if f < crate::scale::FAMILIES.len() {
+        crate::scale::render(crate::scale::FAMILIES[f], 700_000)
+    } else {
+        gen::count_doc(gen::COUNT_KINDS[f - crate::scale::FAMILIES.len()], 66_000)
+    };
+    let (input, client) = if k % 2 == 0 { (InputKind::Str, Client::Iterate) } else { (InputKind::Str, Client::Loader((f % 4) as u8, 2)) };
+    Case { prop: "C01".into(), gen: "M-family-mega".into(), text, input, client, ..Case::default() }
+}
+
 pub fn generate(run_seed: u64, corpus: &Corpus, sw: &Swarm, i: u64, exhaustive: u64) -> Case {
     if i < exhaustive {
+        let i = match crate::batch::spread(i, mega_count()) {
+            Ok(k) => return mega_case(k),
+            Err(j) => j,
+        };
+        let exhaustive = exhaustive - mega_count();
         let n_env = W5_ENVS.len() as u64;
         let (kind, cl) = W5_ENVS[(i % n_env) as usize];
         let client = client_for(cl);
